@@ -408,6 +408,21 @@ impl Scenario for C07 {
                 b.push(Step::Unwrap { blob, node, with: with_u.clone(), faults: vec![], as_kind: None });
             }
         }
+        // memory sizes beyond Argon2's 32-bit KiB parameter, as they come out of `params()` of a parsed
+        // header: nobody can honour them, so no blob may be written (and none read)
+        if matches!(f, 2 | 4) && b.rng.chance(1, 3) {
+            for mem in [(1u64 << 42) + 65536, (1 << 42) + 8192 * 1024, (1 << 45) + 16 * 1024 * 1024] {
+                for writer in 0..nodes.len() {
+                    let blob = b.blob_slot();
+                    let rng = b.healthy_rng();
+                    let with = SecretRef::Password { bytes: Bytes::hex(b"beyond") };
+                    b.push(Step::Wrap { blob, node: writer, wk: WrapKind::Pw, key: fk.local, with: with.clone(), params: PwParams::Argon(mem, 1, 1), rng });
+                    for node in 0..nodes.len() {
+                        b.push(Step::Unwrap { blob, node, with: with.clone(), faults: vec![], as_kind: None });
+                    }
+                }
+            }
+        }
         // the same salt and password under different cost parameters, one after the other on the same
         // node (from a conforming writer and from the library with a scripted salt): each blob is keyed
         // by its own parameters
